@@ -24,6 +24,7 @@ def param(s0=0, a=1, b=0, qf=0, g=0, points=((0, 0), (2, 4), (4, 2), (8, 10)), d
 
 PARAMS = [
     param(),                                                                   # rising input from 0
+    param(s0=6, a=1, b=2, qf=Fraction(1, 4), g=-Fraction(3, 4), sinit=2, tinit=3, dinit=1),      # a flow with a negative number as its rate (clamped)
     param(s0=10, a=-1, b=-3, qf=0, g=1, dinit=5, sinit=4, tinit=5, xti=Fraction(1, 2), pinit=3),             # falling input crossing zero (clamp + falling average)
     param(s0=4, a=2, b=3, qf=Fraction(1, 2), g=0, dn=1, T=1, sinit=0, tinit=1, xti=-Fraction(1, 4), pinit=-2, hz=1, t0=0, dinit=0),    # first-order outflow
     param(s0=8, a=0, b=-2, qf=Fraction(1, 4), g=Fraction(1, 2), dn=3, dinit=7, T=4, h=-2, t0=2, pint=0, xti=1, hz=3),
